@@ -41,6 +41,7 @@ func runC02(c *core.Ctx) {
 	ruleOffsetCapture(c, "C02-R10")
 	ruleXRefStreamRows(c, "C02-R11")
 	ruleObjStmHeader(c, "C02-R12")
+	ruleObjStmSlots(c, "C02-R13")
 }
 
 func ruleXRefCompleteness(c *core.Ctx) {
